@@ -28,6 +28,8 @@ import GraphiqModel.Proofs.FuseLoop
 import GraphiqModel.Proofs.MetricsHistInv
 import GraphiqModel.Proofs.MetricsHistReach
 import GraphiqModel.Proofs.MetricsHist
+import GraphiqModel.Proofs.MetricsHistFuse
+import GraphiqModel.Proofs.MetricsHistCheck
 namespace Graphiq.C12
 open Graphiq Graphiq.Dag Graphiq.Metrics Relation
 
@@ -598,6 +600,27 @@ theorem group_is_fuse_of_runs_after_any_history (ne np nc : Nat) (es : List Edit
   obtain ⟨e, P', g', hw, _, _, hfl⟩ := group_is_fuse_of_runs_on_wires g hh
   exact ⟨P, g, e, P', g', hw, hfl⟩
 
+/-- **`group_one_qubit_gates` = fuse of runs, classical wiring included.**  `wiredWire c P r` is the operation sequence of the wire of
+    `r` with every operation restricted to the classical registers it is actually threaded on (`insert_at` threads none).  On every
+    circuit satisfying DagInv with graphiq-constructed operations the call does not raise, keeps `GroupHyp` and the register counts,
+    and every wire's sequence becomes `fuseWire` of what it was: the persisting operations keep their classical threading (classical
+    wires are literally unchanged), the wrappers are threaded on their quantum register only. -/
+theorem group_is_fuse_of_runs_on_wired_wires {c : Dag} {P : Reg → List NodeId} (g : Good c P) (hh : GroupHyp c) :
+    c.groupOneQubitGates.2 = none ∧ ∃ P', Good c.groupOneQubitGates.1 P' ∧ GroupHyp c.groupOneQubitGates.1 ∧
+      c.groupOneQubitGates.1.regs = c.regs ∧
+      ∀ r, wiredWire c.groupOneQubitGates.1 P' r = fuseWire r (wiredWire c P r) :=
+  groupOneQubitGates_wiredWire g hh
+
+/-- … evaluated in the kernel on the circuit of §8 with a measurement inserted by `insert_at` (classical register `c0` left
+    unthreaded) before the last gate of `e0`: every wire of the grouped circuit, as `reg_gate_history` returns it, carries `fuseWire`
+    of the wire before -/
+def gInsC : Dag :=
+  ((build 1 2 1 gseq).1.insertAt mcrE0P1 [⟨.op 6, .op 7, ⟨.e, 0⟩⟩, ⟨.op 6, .out ⟨.p, 1⟩, ⟨.p, 1⟩⟩]).1
+
+example : gInsC.groupOneQubitGates.2 = none ∧
+    ∀ r ∈ liveRegs gInsC, wiredWire gInsC.groupOneQubitGates.1 (wireOf gInsC.groupOneQubitGates.1) r =
+      fuseWire r (wiredWire gInsC (wireOf gInsC) r) := by decide +kernel
+
 /-- the hypothesis is sharp in the only direction left: an operation object that is groupable but is NOT a one-qubit gate
     object (here: class `Hadamard`, label "one-qubit", two quantum registers — not constructible with graphiq's classes)
     is not a `GraphiqOp`, and a circuit holding it violates `GroupHyp` -/
@@ -622,6 +645,23 @@ example : HistOKg (Dag.init 1 1 0)
   have gW : GraphiqOp wrapP0 := ⟨wrap_wf, ⟨⟨by decide, by decide⟩, by decide⟩, fun _ => ⟨⟨_, rfl⟩, rfl⟩⟩
   ⟨gH, ⟨gH, ⟨by decide, rfl, by intro e1 h1 e2 h2 hne; simp at h1 h2; subst h1 h2; exact absurd rfl hne⟩⟩,
    gC, gM, gW, trivial, trivial, gC, trivial, trivial, trivial, trivial, trivial, trivial⟩
+
+/-- **an edge pair the circuit reports compatible is a well-formed `insert_at` argument** (`InsertOK`, the hypothesis of
+    `HistOKg` / `edit_preserves_dagInv`): both edges exist, are keyed by the operation's registers, and are pairwise path-free -/
+theorem compatible_pair_is_well_formed {c : Dag} (h : DagInv c) {op : Op} {first second : Edge} {L : List Edge}
+    (hL : c.findIncompatibleEdges first = .ok L) (h1 : first ∈ c.edges) (h2 : second ∈ c.edges) (hcompat : second ∉ L)
+    (hq : op.qregs = [first.key, second.key]) : InsertOK c op [first, second] := by
+  obtain ⟨n1, n2⟩ := compatible_no_path (model_reachability_meets_nx_spec h first.src).1
+    (model_reachability_meets_nx_spec h first.dst).2 hL h2 hcompat
+  refine ⟨?_, by simp [hq], ?_⟩
+  · intro e he; simp at he; rcases he with rfl | rfl <;> assumption
+  · intro e1 he1 e2 he2 hne
+    simp at he1 he2
+    rcases he1 with rfl | rfl <;> rcases he2 with rfl | rfl
+    · exact absurd rfl hne
+    · exact n1
+    · exact n2
+    · exact absurd rfl hne
 
 /-- **inserting at the beginning of wires is always a well-formed call** (the time-reversed solver's pattern:
     `insert_at(gate, [first out-edge of e<i>_in, first out-edge of p<j>_in])`): existing edges that leave input nodes, one per
